@@ -226,6 +226,8 @@ def run_check(mod, tier, seed, deadline_s=None):
         print("... %d more distinct violations not printed" % (len(new) - printed), file=out)
     wall = time.time() - t0
     exhaustive = bool(plan.get("exhaustive", True)) and not capped and done_shards == n
+    if tot.extra.get("words_outside_cap") or tot.extra.get("operand_enumerations_capped"):
+        exhaustive = False         # a wide observation was resolved from the pattern alphabet: stated, not complete
     cov = {
         "states": max(nstates, 1) if done_shards else 0,
         "transitions": max(tot.transitions, 0),
